@@ -3,6 +3,8 @@ LEVELS = {
     "C04": "proof",
     "C02": "proof",
     "C06": "proof",
+    "C01": "proof",
+    "C05": "proof",
 }
 EXPLAIN = {}
 TRUSTED = [
